@@ -70,8 +70,8 @@ def check_point_decoder(ctx, oid="C14.1"):
     x = tm.b2i(tm.slc(pk, 1, 33), "big")
     n = 0
     ys = {}
-    for L in (0, 1, 32, 33, 34, 64, 65, 66, 70):
-        for pref in range(0, 8):
+    for L in (range(0, 71) if ctx.thorough else (0, 1, 32, 33, 34, 64, 65, 66, 70)):
+        for pref in (range(0, 256) if ctx.thorough and L in (33, 65) else range(0, 8)):
             if L == 0:
                 ev.bind = {tm.length(pk): L}
             else:
